@@ -118,9 +118,33 @@ func RandomTree(r *rand.Rand, leaves []*Node, depth int) *Node {
 		return leaves[r.Intn(len(leaves))]
 	}
 	if r.Intn(3) == 0 {
-		return UnaryOps[r.Intn(len(UnaryOps))](RandomTree(r, leaves, depth-1))
+		return RandomUnary(r, RandomTree(r, leaves, depth-1))
 	}
 	return BinaryOps[r.Intn(2)](RandomTree(r, leaves, depth-1), RandomTree(r, leaves, depth-1))
+}
+
+// FuzzyAmounts and BoostAmounts are the explicit amounts random trees use (0 and 1 included: an
+// amount equal to a default or to "nothing" must still leave its operator in the tree).
+var FuzzyAmounts = []int{0, 1, 2, 3, 10}
+var BoostAmounts = []string{"0.5", "1", "2", "3", "2.5", "10", "1.0"}
+
+// RandomUnary applies a seeded unary operator, with a seeded amount for ~n / ^n.
+func RandomUnary(r *rand.Rand, n *Node) *Node {
+	switch r.Intn(9) {
+	case 0:
+		return Not(n)
+	case 1:
+		return Must(n)
+	case 2:
+		return MustNot(n)
+	case 3:
+		return Fuzzy(n)
+	case 4, 5:
+		return FuzzyN(n, FuzzyAmounts[r.Intn(len(FuzzyAmounts))])
+	case 6:
+		return Boost(n)
+	}
+	return BoostN(n, BoostAmounts[r.Intn(len(BoostAmounts))])
 }
 
 // AndNodes lists the AND nodes of a tree in pre-order.
@@ -185,11 +209,34 @@ func HostileLeaves(r *rand.Rand, dict []string, n int, withFields bool) []*Node 
 		case 5:
 			out = append(out, Group("g", Or(T(v), Not(T(pick())))))
 		case 6:
-			if withFields {
-				out = append(out, FV(v, pick()))
-			} else {
+			if !withFields {
 				out = append(out, F("f", v))
+				break
 			}
+			// a hostile field name under every leaf kind, not just equality
+			var l *Node
+			switch r.Intn(9) {
+			case 0:
+				l = F("f", pick())
+			case 1:
+				l = Range("f", Int(r.Intn(20)-5), Int(20+r.Intn(80)), r.Intn(2) == 0)
+			case 2:
+				l = Range("f", Open(), Float("2.5"), r.Intn(2) == 0)
+			case 3:
+				l = Range("f", Int(r.Intn(9)), Open(), r.Intn(2) == 0)
+			case 4:
+				l = Range("f", Word("aa"), pick(), true)
+			case 5:
+				l = Cmp("f", []string{">", ">=", "<", "<="}[r.Intn(4)], Int(r.Intn(50)))
+			case 6:
+				l = List("f", Word("x"), pick(), Int(r.Intn(9)))
+			case 7:
+				l = F("f", Wild("w*"+"?"))
+			case 8:
+				l = F("f", Regexp("/r.e/"))
+			}
+			l.Field = v
+			out = append(out, l)
 		}
 	}
 	return out
